@@ -928,6 +928,10 @@ class BaseInterpreter(Generic[TContext, TEvent]):
                     raise StateNotFoundError(target=nid)
                 nodes.append(node)
             if nodes:
+                # 📑 The persisted list is sorted by id; the live engine
+                #    remembers in document order, which decides the order in
+                #    which restored states are re-entered.
+                nodes.sort(key=cls._document_order)
                 interpreter._history[parent_id] = nodes
 
         # 👶 Restore child actors. Their machine definitions are resolved from
